@@ -154,7 +154,7 @@ func c17(r *mon.Run) {
 		"Non-trivial = distinct failing inputs by (normalised message template, offset class 0/inside/=len, length mod 7)."
 	r.Floor = 50
 	r.Assumptions = []string{"errors that are not of type SyntaxError (strconv / encoding/json errors passed through) carry no location; they are counted and listed, the location contract is applied to SyntaxError values only, as the statement says"}
-	gens := []byteGen{genShortBytes(), genTokenSoup(r.Seed, tierPick(r, 150000, 3000000)), genNesting(), genMutations(r.Seed, r.Root, tierPick(r, 120000, 3000000))}
+	gens := []byteGen{genShortBytes(), genTokenSoup(r.Seed, tierPick(r, 150000, 3000000)), genNesting(), genCutShort(), genMutations(r.Seed, r.Root, tierPick(r, 120000, 3000000))}
 	var ws []mon.Workload
 	for _, g := range gens {
 		g := g
